@@ -392,8 +392,8 @@ func c04Scenarios(tier string) []engine.Scenario {
 func init() {
 	engine.Register(&engine.Property{
 		ID: "C04", Level: "model_checking",
-		Rule: "E1 with a reference automaton (count, last attempt, locked-until) advanced on the same history and compared with storage and with a probe login after every step; clock alphabet {1s, W-1s, W+1s, D-1s, D+1s}; small-duration configurations run to a fixpoint (all histories of any length); classes = attempt classes and lock transitions hit",
-		Units: func(tier string) []engine.Unit { return e1Units(c04Scenarios(tier)) },
+		Rule:        "E1 with a reference automaton (count, last attempt, locked-until) advanced on the same history and compared with storage and with a probe login after every step; clock alphabet {1s, W-1s, W+1s, D-1s, D+1s}; small-duration configurations run to a fixpoint (all histories of any length); classes = attempt classes and lock transitions hit",
+		Units:       func(tier string) []engine.Unit { return e1Units(c04Scenarios(tier)) },
 		Assumptions: []string{"lock expiry at exactly LockDuration is not asserted either way", "at most LockAfter+2 counted failures in a row (bounds the counter)", "a repeated TOTP code (replay protection) is outside this alphabet"},
 	})
 }
